@@ -543,7 +543,10 @@ func (e *Engine) genFunction(fn *ssa.Function) (fc *fnCtx, err error) {
 			}
 			// a body-only assertion may mention locals that do not exist on every return path: it is checked
 			// at the returns where they do (at least one, or the contract is rejected below)
+			aenv := *env
+			aenv.vars = fr.shadowed(env.vars, rr.instr.Block())
 			t, ok := func() (t string, ok bool) {
+				env := &aenv
 				defer func() {
 					if r := recover(); r != nil {
 						if ee, is := r.(engineError); is && strings.Contains(string(ee), "unknown identifier") {
@@ -1186,6 +1189,10 @@ func (fr *frame) namedAt(b *ssa.BasicBlock, strict bool) map[string]ssa.Value {
 				if !ok {
 					continue
 				}
+				if fv, isVar := dr.Object().(*types.Var); isVar && fv.IsField() {
+					// (the selector identifier of a field access, not a local variable)
+					continue
+				}
 				if _, isConst := dr.X.(*ssa.Const); isConst {
 					// (the builder records "is nil" for a variable defined by a composite literal before the real value)
 					continue
@@ -1221,8 +1228,8 @@ func (fr *frame) namedAt(b *ssa.BasicBlock, strict bool) map[string]ssa.Value {
 			for _, v := range ok {
 				vi, isI := v.(ssa.Instruction)
 				if !isI {
-					best = nil
-					break
+					// a parameter or constant: the outermost scope, shadowed by any dominating definition
+					continue
 				}
 				if best == nil {
 					best = v
@@ -1247,6 +1254,21 @@ func (fr *frame) namedAt(b *ssa.BasicBlock, strict bool) map[string]ssa.Value {
 			if best != nil {
 				out[n] = best
 			}
+		}
+	}
+	return out
+}
+
+// shadowed: the variable environment of a body-level assertion: a local that shadows a parameter with a narrower
+// type (the variable bound by a type switch: `switch node := node.(type)`) takes the parameter's place.
+func (fr *frame) shadowed(vars map[string]TV, b *ssa.BasicBlock) map[string]TV {
+	out := make(map[string]TV, len(vars))
+	for k, v := range vars {
+		out[k] = v
+	}
+	for k, v := range fr.localsAt(b) {
+		if old, ok := out[k]; !ok || (old.Typ != nil && v.Typ != nil && !types.Identical(old.Typ, v.Typ)) {
+			out[k] = v
 		}
 	}
 	return out
